@@ -41,6 +41,14 @@ SymWhy(op, a, res) ==
      ELSE IF ~res.idempotent THEN "not-idempotent"
      ELSE IF a.symmetric_input /\ ~res.same_tensor THEN "symmetric-input-changed"
      ELSE "ok")
+  ELSE IF op = "k_issymmetric" THEN
+    \* the Kruskal symmetry test: it must say yes when all factor matrices are identical, and it may say yes only
+    \* for a tensor that is invariant under every mode permutation (res.full_symmetric: exact test on the full array)
+    (IF res.st # "ok" THEN res.st
+     ELSE IF a.perturb = "none" /\ ~res.val THEN "identical-factors-called-asymmetric"
+     ELSE IF res.val /\ ~res.full_symmetric THEN "true-for-a-tensor-that-is-not-symmetric"
+     ELSE IF res.diffs_zero # res.val THEN "details-disagree-with-answer"
+     ELSE "ok")
   ELSE IF ~GroupsOk(a.X, a.grps) THEN "precondition"
   ELSE IF res.st # "ok" THEN res.st
   ELSE IF op = "symmetrize" THEN
